@@ -275,9 +275,6 @@ def oracle(allowed, expected, data, sizes, faults, iterator, must_complete=False
         name, k = t['fed_after_finish'][0]
         return ('the wrapper finished inspector %s while the stream was still being read and fed it chunk %d '
                 'afterwards%s' % (name, k, '' if end == 'done' else ' (%s reached the reader)' % type(exc).__name__))
-    if must_complete and (end != 'done' or b''.join(out) != data[:sum(len(c) for c in chunks)]):
-        return ('content matches expected_format=%s and that inspector has no fault, but the stream ended with %s '
-                'after %d of %d reads' % (expected, type(exc).__name__ if exc is not None else end, m, len(sizes)))
     # transparent pipe: the reader gets exactly the source's chunks, in order
     for k, (a, b) in enumerate(zip(out, chunks)):
         if a != b:
@@ -285,6 +282,9 @@ def oracle(allowed, expected, data, sizes, faults, iterator, must_complete=False
                 k, len(a), len(b), '' if iterator else ', read size %r' % (list(sizes)[k],))
     if b''.join(out) != data[:sum(len(c) for c in chunks[:m])]:
         return 'bytes out differ from bytes in'
+    if must_complete and (end != 'done' or b''.join(out) != data[:sum(len(c) for c in chunks)]):
+        return ('content matches expected_format=%s and that inspector has no fault, but the stream ended with %s '
+                'after %d of %d reads' % (expected, type(exc).__name__ if exc is not None else end, m, len(sizes)))
     if end == 'extra-item':
         return 'the wrapper yielded more items than the source'
     present = expected in t['names'] if expected else False
